@@ -102,6 +102,14 @@ func (c *prefixedConn) TakeRelayPrefix() []byte {
 	return remaining
 }
 
+// CloseWrite passes a half-close on to the wrapped connection.
+func (c *prefixedConn) CloseWrite() error {
+	if wc, ok := c.Conn.(WriteCloser); ok {
+		return wc.CloseWrite()
+	}
+	return nil
+}
+
 func (c *prefixedConn) Read(p []byte) (int, error) {
 	if c.off < len(c.prefix) {
 		n := copy(p, c.prefix[c.off:])
